@@ -1,7 +1,7 @@
 SPECIFICATION Spec
 CONSTANTS
-  Depth = 2
-  LongInput = FALSE
+  Depth = 1
+  LongInput = TRUE
   Wide = TRUE
 INVARIANTS Agree EmitInv
 CHECK_DEADLOCK FALSE
